@@ -295,10 +295,10 @@ class Unit:
             loc = locate(relfile, self.root)
             iid = item["id"]
             if "methods" in item:
-                cont = find_item(loc, relfile, item["path"])
+                header_mode = item.get("header", "repo")
+                cont = find_item(loc, relfile, item["path"]) if header_mode == "repo" else None
                 src = loc["src"]
                 parts = []
-                header_mode = item.get("header", "repo")
                 cspec = specs.get(iid)
                 if header_mode == "repo":
                     hs = cont["item_start"]
